@@ -118,6 +118,15 @@ fn run<const N: usize>(s: &mut Summary, v: &V) {
                 let n = match &objs[i] { Obj::C(c) => Obj::C(c.clone()), Obj::B(b) => Obj::B(b.clone()), Obj::None => panic!("clone of nothing") };
                 objs[j] = n;
             }
+            "clone_from" => {
+                let [oa, ob] = &mut objs;
+                let (d, sc) = if i == 0 { (oa, &*ob) } else { (ob, &*oa) };
+                match (d, sc) {
+                    (Obj::C(d), Obj::C(sc)) => d.clone_from(sc),
+                    (Obj::B(d), Obj::B(sc)) => d.clone_from(sc),
+                    _ => panic!("path: clone_from needs two containers of one kind"),
+                }
+            }
             "drop" => { objs[i] = Obj::None; }
             "clone_panic" => {
                 // T::clone panics part-way: the half-built clone is dropped during unwinding
@@ -254,6 +263,15 @@ fn run_zst<const N: usize>(s: &mut Summary, v: &V) {
                 let n = match &objs[i] { ObjZ::C(c) => ObjZ::C(c.clone()), ObjZ::B(b) => ObjZ::B(b.clone()), ObjZ::None => ObjZ::None };
                 objs[1 - i] = n;
             }
+            "clone_from" => {
+                let [oa, ob] = &mut objs;
+                let (d, sc) = if i == 0 { (oa, &*ob) } else { (ob, &*oa) };
+                match (d, sc) {
+                    (ObjZ::C(d), ObjZ::C(sc)) => d.clone_from(sc),
+                    (ObjZ::B(d), ObjZ::B(sc)) => d.clone_from(sc),
+                    _ => panic!("path: clone_from needs two containers of one kind"),
+                }
+            }
             "drop" => { objs[i] = ObjZ::None; }
             "clone_panic" => {
                 set_clone_bomb(Some(st["j"].as_u64().unwrap() as u32));
@@ -296,7 +314,96 @@ fn run_zst<const N: usize>(s: &mut Summary, v: &V) {
     s.monitor("ZST: final ledger", created == dropped, "each zero-sized value dropped exactly once overall");
 }
 
+// ---- the same behaviours with a Copy element type: `copy()` stands for clone, `*dst = src.copy()` for clone_from.
+// Values are distinct numbers; the window every container should show is tracked next to it (push_back / pop_front /
+// pop_back / copy of the source's window) and its length must be the model's.
+enum ObjC<const N: usize> {
+    C(ArrayConsumer<u32, N>),
+    B(ArrayBuilder<u32, N>),
+    None,
+}
+fn run_copy<const N: usize>(s: &mut Summary, v: &V) {
+    use std::collections::VecDeque;
+    let mut fresh = 0u32;
+    let mut new = || { fresh += 1; fresh.wrapping_mul(0x9E37_79B9) };
+    let mut objs: [ObjC<N>; 2] = [ObjC::None, ObjC::None];
+    let mut shadow: [VecDeque<u32>; 2] = [VecDeque::new(), VecDeque::new()];
+    objs[0] = if v["start"] == json!("consumer") {
+        let a: [u32; N] = std::array::from_fn(|_| new());
+        shadow[0] = a.iter().copied().collect();
+        ObjC::C(ArrayConsumer::new(a))
+    } else if v["start"] == json!("consumer_empty") {
+        ObjC::C(ArrayConsumer::empty())
+    } else {
+        ObjC::B(ArrayBuilder::new())
+    };
+    let ix = |nm: &V| if nm == &json!("a") { 0 } else { 1 };
+    let mut handed = 0usize;
+    for st in v["path"].as_array().unwrap() {
+        let i = ix(&st["o"]);
+        let op = st["op"].as_str().unwrap();
+        match op {
+            "next" | "next_back" | "next_none" => {
+                if let ObjC::C(c) = &mut objs[i] {
+                    let r = if op == "next_back" { c.next_back() } else { c.next() }.map(ManuallyDrop::into_inner);
+                    let e = if op == "next_back" { shadow[i].pop_back() } else { shadow[i].pop_front() };
+                    handed += r.is_some() as usize;
+                    s.check("ArrayConsumer<u32>::next / next_back", json!(r), &json!(e));
+                }
+            }
+            "clone" | "clone_from" => {
+                let n = match &objs[if op == "clone" { i } else { 1 - i }] { ObjC::C(c) => ObjC::C(c.copy()), ObjC::B(b) => ObjC::B(b.copy()), ObjC::None => ObjC::None };
+                if op == "clone" { objs[1 - i] = n; shadow[1 - i] = shadow[i].clone(); } else { objs[i] = n; shadow[i] = shadow[1 - i].clone(); }
+            }
+            "drop" => { objs[i] = ObjC::None; shadow[i].clear(); }
+            "clone_panic" => {}
+            "assert_is_empty" => {
+                if let ObjC::C(c) = std::mem::replace(&mut objs[i], ObjC::None) { c.assert_is_empty(); }
+            }
+            "push" => { if let ObjC::B(b) = &mut objs[i] { let x = new(); b.push(x); shadow[i].push_back(x); } }
+            "push_full" => {
+                if let ObjC::B(b) = &mut objs[i] {
+                    let x = new();
+                    let r = std::panic::catch_unwind(std::panic::AssertUnwindSafe(|| b.push(x)));
+                    s.monitor("ArrayBuilder<u32>::push on a full builder", r.is_err(), "panics");
+                }
+            }
+            "build" => {
+                if let ObjC::B(b) = std::mem::replace(&mut objs[i], ObjC::None) {
+                    let arr = b.build();
+                    handed += N;
+                    s.check("ArrayBuilder<u32>::build", json!(arr.to_vec()), &json!(shadow[i].iter().copied().collect::<Vec<_>>()));
+                    shadow[i].clear();
+                }
+            }
+            _ => panic!("unknown Ownership op {op}"),
+        }
+    }
+    for (k, tag, exp) in [(0usize, "a", &v["a"]), (1usize, "b", &v["b"])] {
+        let (win, dbg): (Vec<u32>, String) = match &objs[k] {
+            ObjC::C(c) => (c.as_slice().to_vec(), format!("{:?}", c)),
+            ObjC::B(b) => (b.as_slice().to_vec(), format!("{:?}", b)),
+            ObjC::None => (vec![], String::new()),
+        };
+        s.check(&format!("{tag}/Copy: window"), json!(win), &json!(shadow[k].iter().copied().collect::<Vec<_>>()));
+        s.check(&format!("{tag}/Copy: window length"), json!(win.len()), &json!(exp["win"].as_array().unwrap().len()));
+        // beyond the property: the Debug output shows exactly the window
+        if !dbg.is_empty() {
+            s.extra(&format!("{tag}/Copy: Debug shows the window"), json!(dbg.contains(&format!("{:?}", win))), &json!(true));
+        }
+    }
+    s.check("Copy: values handed to the caller (count)", json!(handed), &json!(v["handed"].as_array().unwrap().len()));
+}
+
 pub fn replay(s: &mut Summary, v: &V) {
+    match v["n"].as_u64().unwrap() {
+        0 => run_copy::<0>(s, v),
+        1 => run_copy::<1>(s, v),
+        2 => run_copy::<2>(s, v),
+        3 => run_copy::<3>(s, v),
+        4 => run_copy::<4>(s, v),
+        n => panic!("unsupported N {n}"),
+    }
     match v["n"].as_u64().unwrap() {
         0 => run_zst::<0>(s, v),
         1 => run_zst::<1>(s, v),
@@ -345,14 +452,14 @@ fn record_n<const N: usize>(rng: &mut rand::rngs::SmallRng, n_events: usize, out
                     match rng.gen_range(0..10) {
                         0..=3 => if empty { "next_none" } else { "next" },
                         4..=6 => if empty { "next_none" } else { "next_back" },
-                        7 => if matches!(objs[1 - i], Obj::None) { "clone" } else { "next_none_or_skip" },
+                        7 => if matches!(objs[1 - i], Obj::None) { "clone" } else { "clone_from" },
                         8 => if empty { "assert_is_empty" } else { "drop" },
                         _ => "drop",
                     }
                 }
                 Obj::B(b) => match rng.gen_range(0..10) {
                     0..=5 => if b.is_full() { "build" } else { "push" },
-                    6 | 7 => if matches!(objs[1 - i], Obj::None) { "clone" } else { "drop" },
+                    6 | 7 => if matches!(objs[1 - i], Obj::None) { "clone" } else if rng.gen_bool(0.7) { "clone_from" } else { "drop" },
                     8 => if b.is_full() { "build" } else { "drop" },
                     _ => "drop",
                 },
@@ -376,6 +483,15 @@ fn record_n<const N: usize>(rng: &mut rand::rngs::SmallRng, n_events: usize, out
                         op_override = Some(("clone_panic", j));
                     } else {
                         let n = match &objs[i] { Obj::C(c) => Obj::C(c.clone()), Obj::B(b) => Obj::B(b.clone()), Obj::None => Obj::None }; objs[1 - i] = n;
+                    }
+                }
+                "clone_from" => {
+                    let [oa, ob] = &mut objs;
+                    let (d, sc) = if i == 0 { (oa, &*ob) } else { (ob, &*oa) };
+                    match (d, sc) {
+                        (Obj::C(d), Obj::C(sc)) => d.clone_from(sc),
+                        (Obj::B(d), Obj::B(sc)) => d.clone_from(sc),
+                        _ => unreachable!(),
                     }
                 }
                 "drop" => { objs[i] = Obj::None; }
